@@ -15,6 +15,7 @@ class C02(SysBase):
             "all pieces obtained, output files byte-identical to the content, extractor started, no panic, completion within "
             "20 virtual minutes of inactivity. Non-trivial: runs with at least two peers or two pieces; distinct lines.")
     statement_status = "partial: see Props/C02.v (liveness under scheduler fairness is not machine-checked)"
+    classes = {1: "sole-holder-idle-after-reserver-left"}
 
     def corpus(self):
         return [self.mk(5, 16384, [40000, 5, 0, 30000], [("11111", "honest")], "corpus", True),
@@ -44,6 +45,20 @@ class C02(SysBase):
                 peers.append((bits, beh))
             rng.shuffle(peers)
             cases.append(self.mk(rng.randrange(1, 10 ** 6), pl, flens, peers, "swarm", True))
+        # sole holders: one honest peer offers only piece p, another honest peer everything else, and a peer that
+        # has everything takes reservations, answers nothing and leaves after a few seconds
+        for j in range(k // 2):
+            big = (j % 2 == 0)
+            pl = rng.choice([16384, 20000])
+            n = rng.choice([11, 12, 14]) if big else rng.choice([2, 3, 5, 8])
+            flens = [pl * n - rng.randrange(0, pl)]
+            p = rng.randrange(n)
+            only_p = "".join("1" if i == p else "0" for i in range(n))
+            rest = "".join("0" if i == p else "1" for i in range(n))
+            peers = [("1" * n, "holdleave %d" % rng.choice([2000, 5000, 20000])), (only_p, "honest"), (rest, "honest")]
+            if rng.random() < 0.3:
+                peers.insert(0, ("1" * n, "holdleave %d" % rng.choice([3000, 9000])))
+            cases.append(self.mk(rng.randrange(1, 10 ** 6), pl, flens, peers, "sole-holder" + ("-big" if big else ""), True, sole=p))
         return cases
 
 
